@@ -17,6 +17,8 @@ enum Kind {
     Down { name: String, b: usize, w: usize },
     Up { name: String, b: usize, w: usize, content: Vec<u8> },
     Intruder { what: String },
+    /// sends datagrams (well-formed or not) from its own endpoint to the endpoint that serves client `victim`
+    Stranger { victim: usize, what: String },
 }
 
 struct Client {
@@ -32,6 +34,7 @@ struct Client {
     // upload
     acked: usize, // blocks acknowledged
     src_class: String,
+    idle_turns: u32,
 }
 
 fn opts(b: usize, w: usize) -> Vec<TransferOption> {
@@ -53,12 +56,35 @@ impl Client {
         }
     }
 
-    /// one turn: send what is due, then read everything that arrives until quiet
+    /// one turn; a client that has heard nothing for 8 consecutive turns gives up ("stalled": its transfer is dead)
     fn turn(&mut self, listener: SocketAddr) {
         if self.done {
             return;
         }
+        let before = (self.got.len(), self.acked, self.peer.is_some(), self.expected);
+        self.turn_inner(listener);
+        if self.done {
+            return;
+        }
+        let after = (self.got.len(), self.acked, self.peer.is_some(), self.expected);
+        if before == after {
+            self.idle_turns += 1;
+            if self.idle_turns >= 8 {
+                self.result = format!("stalled:{}:{}", self.got.len(), self.acked);
+                self.done = true;
+            }
+        } else {
+            self.idle_turns = 0;
+        }
+    }
+
+    /// send what is due, then read everything that arrives until quiet
+    fn turn_inner(&mut self, listener: SocketAddr) {
+        if self.done {
+            return;
+        }
         match &self.kind {
+            Kind::Stranger { .. } => {}
             Kind::Intruder { what } => {
                 let p = match what.as_str() {
                     "ack" => Packet::Ack(7),
@@ -168,6 +194,43 @@ impl Client {
     }
 }
 
+/// a stranger's turn: seven datagrams to the endpoint that serves its victim (once that endpoint is known);
+/// it gives up when the victim has finished
+fn stranger_turn(clients: &mut [Client], i: usize) {
+    let (victim, what) = match &clients[i].kind {
+        Kind::Stranger { victim, what } => (*victim, what.clone()),
+        _ => return,
+    };
+    if clients[i].done {
+        return;
+    }
+    clients[i].result = "x".into();
+    if victim >= clients.len() || victim == i || clients[victim].done {
+        clients[i].done = true;
+        return;
+    }
+    if let Some(to) = clients[victim].peer {
+        let bytes: Vec<u8> = match what.as_str() {
+            "empty" => vec![],
+            "one" => vec![0],
+            "opcode" => vec![0, 9, 1, 2, 3],
+            "shortack" => vec![0, 4, 1],
+            "noise" => vec![0xde, 0xad, 0xbe, 0xef, 1, 2, 3, 4, 5],
+            "unterminated" => vec![0, 1, b'a', b'b'],
+            "ack" => Packet::Ack(1).serialize().unwrap(),
+            "data" => Packet::Data { block_num: 1, data: vec![9; 8] }.serialize().unwrap(),
+            _ => Packet::Error { code: ErrorCode::NotDefined, msg: "x".into() }.serialize().unwrap(),
+        };
+        for _ in 0..7 {
+            let _ = clients[i].sock.send_to(&bytes, to);
+        }
+        std::thread::sleep(Duration::from_millis(2));
+        // drain whatever the server answered to the stranger (nobody's observation)
+        while recv_packet(&clients[i].sock, Duration::from_millis(1)).is_some() {}
+        clients[i].done = true;
+    }
+}
+
 pub fn multi_line(toks: &[&str]) -> String {
     if toks.len() < 6 {
         return "bad-op".into();
@@ -190,6 +253,7 @@ pub fn multi_line(toks: &[&str]) -> String {
                 Kind::Up { name: name.to_string(), b: b.parse().unwrap_or(512), w: w.parse().unwrap_or(1), content: c }
             }
             ["i", what] => Kind::Intruder { what: what.to_string() },
+            ["x", victim, what] => Kind::Stranger { victim: victim.parse().unwrap_or(0), what: what.to_string() },
             _ => return "bad-op".into(),
         };
         clients.push(Client {
@@ -203,11 +267,13 @@ pub fn multi_line(toks: &[&str]) -> String {
             expected: 1,
             acked: 0,
             src_class: String::new(),
+            idle_turns: 0,
         });
     }
     for ch in toks[4].chars() {
         if let Some(i) = ch.to_digit(36) {
             if (i as usize) < clients.len() {
+                stranger_turn(&mut clients, i as usize);
                 clients[i as usize].turn(listener);
             }
         }
@@ -217,8 +283,9 @@ pub fn multi_line(toks: &[&str]) -> String {
         if clients.iter().all(|c| c.done) {
             break;
         }
-        for c in clients.iter_mut() {
-            c.turn(listener);
+        for i in 0..clients.len() {
+            stranger_turn(&mut clients, i);
+            clients[i].turn(listener);
         }
     }
     // tell the server to stop whatever is still running
